@@ -57,7 +57,7 @@ def fit_rsel(t, n, norepeat=False):
             idx = out
         return ["l", idx, t[2] if idx else "int64"]
     if k == "m":
-        return ["m", [bool(t[1][i % len(t[1])]) for i in range(n)], True]
+        return ["m", [bool(t[1][i % len(t[1])]) for i in range(n)], bool(t[2]) if len(t) > 2 else True]   # numpy mask or list of bools
     return t
 
 
